@@ -378,7 +378,7 @@ Proof.
     unfold exists_ in E. destruct (resolve s sc) as [c|] eqn:R; [|discriminate].
     assert (Hc : s sc = Some (NFile c)).
     { unfold resolve, is_link in *. destruct (s sc) as [[c0|t]|]; try discriminate. inversion R; reflexivity. }
-    destruct same.
+    destruct (hard && same)%bool.
     + cbn [crash_states] in H. destruct H as [<-|[]]. left. reflexivity.
     + destruct (lexists s (tmp_of p sfx2)) eqn:EL.
       * eapply link_tail with (hard := hard); eauto. rewrite EL. exact H.
@@ -394,7 +394,7 @@ Proof.
       - eapply crash_states_frame; eauto.
         intros C. apply store_plain_touched in C. destruct C; contradiction. }
     destruct (snd (store_plain_ops s sc sfx d)) eqn:OK; [|left; apply Fr; exact H].
-    destruct same; [left; apply Fr; exact H|].
+    destruct (hard && same)%bool; [left; apply Fr; exact H|].
     set (s1 := apply_ops s (fst (store_plain_ops s sc sfx d))) in *.
     assert (H1 : read_path s1 p = read_path s p /\ s1 p = s p) by (apply Fr; apply crash_states_last).
     assert (Hc : s1 sc = Some (NFile d)) by (apply store_plain_completes; exact OK).
@@ -432,12 +432,12 @@ Proof.
     - eapply A; eauto.
     - apply B in Hq. tauto. }
   destruct (exists_ s sc); cbn [fst snd] in H.
-  - destruct same; [contradiction|].
+  - destruct (hard && same)%bool; [contradiction|].
     destruct (lexists (apply_ops s []) (tmp_of p sfx2)) eqn:EL.
     + eapply (C [] (apply_ops s [])); [rewrite EL; exact H|auto].
     + eapply (C [] (apply_ops s [])); [rewrite EL; exact H|auto].
   - destruct (snd (store_plain_ops s sc sfx d)); [|eapply A; eauto].
-    destruct same; [eapply A; eauto|].
+    destruct (hard && same)%bool; [eapply A; eauto|].
     destruct (lexists (apply_ops s (fst (store_plain_ops s sc sfx d))) (tmp_of p sfx2)) eqn:EL.
     + eapply (C _ (apply_ops s (fst (store_plain_ops s sc sfx d)))); [rewrite EL; exact H|auto].
     + eapply (C _ (apply_ops s (fst (store_plain_ops s sc sfx d)))); [rewrite EL; exact H|auto].
@@ -531,7 +531,7 @@ Proof.
     assert (S1 : forall hard, In x (touched (store_single_ops s (rq_loc r) sc hard (rq_same r) (rq_sfx r) (rq_sfx2 r) (rq_data r))) ->
                               x = rq_loc r \/ x = tmp_of (rq_loc r) (rq_sfx2 r)).
     { intros hard Hh. unfold store_single_ops in Hh. rewrite Ex in Hh. cbn [fst snd app apply_ops fold_left] in Hh.
-      destruct (rq_same r); [contradiction|].
+      destruct (hard && rq_same r)%bool; [contradiction|].
       destruct (lexists s (tmp_of (rq_loc r) (rq_sfx2 r))).
       - cbn in Hh. destruct Hh as [<-|[]]. auto.
       - unfold link_op in Hh. destruct hard; cbn in Hh; destruct Hh as [<-|[<-|[<-|[]]]]; auto. }
